@@ -107,8 +107,47 @@ func checkC18(c *Ctx) {
 				if f != nil {
 					d = f.FullName()
 				}
+				// carriesGroup: the argument wraps the group's attributes (a conversion of Value.Group(), or a struct
+				// one of whose fields holds it)
+				carriesGroup := func(a ssa.Value) bool {
+					v := a
+					for k := 0; k < 12; k++ {
+						switch y := v.(type) {
+						case *ssa.MakeInterface:
+							v = y.X
+							continue
+						case *ssa.ChangeType:
+							v = y.X
+							continue
+						}
+						nx := st.Step(v)
+						if nx == nil {
+							break
+						}
+						v = nx
+					}
+					isGroupCall := func(d string) bool {
+						d = strings.ReplaceAll(d, "var "+an, an)
+						return strings.HasSuffix(d, "Group("+an+".Value)") || strings.HasSuffix(d, "Group("+an+".Value))")
+					}
+					if isGroupCall(st.Desc(v)) {
+						return true
+					}
+					if isStructVal(v) {
+						for _, d := range st.FieldsOf(v) {
+							if isGroupCall(d) {
+								return true
+							}
+						}
+					}
+					return false
+				}
 				var ad []string
 				for _, a := range Args(cl) {
+					if carriesGroup(a) {
+						ad = append(ad, "groupObject(Group("+an+".Value))")
+						continue
+					}
 					ad = append(ad, strings.ReplaceAll(st.Desc(a), "var "+an, an))
 				}
 				key := d + "(" + strings.Join(ad, " , ") + ")"
